@@ -274,7 +274,8 @@ fn structures(ctx: &mut Ctx) {
                 s.push_str("print(\"linked\\n\");\n");
                 let mut must_succeed: Option<String> = None;
                 match reach {
-                    "print" | "print-shared-acyclic" => s.push_str(&format!("print(\"~\\n\", {});\nprint(\"after\\n\")", root)),
+                    // text and another placeholder precede the one bound to the (possibly cyclic) value
+                    "print" | "print-shared-acyclic" => s.push_str(&format!("print(\"seven ~ then ~\\n\", 7, {});\nprint(\"after\\n\")", root)),
                     "dispatch-inherited" => {
                         // `+` is found in the integer at the end of the parent chain: the cycle must not matter
                         if link == "cell" { s.push_str("print(\"~\\n\", n0[0]);\nprint(\"after\\n\")"); must_succeed = Some("start\nlinked\n0\nafter\n".to_string()) }
@@ -286,6 +287,11 @@ fn structures(ctx: &mut Ctx) {
                 let res = run_text(ctx, &s, 30);
                 ctx.count("programs", 1);
                 ctx.nontrivial(s.as_bytes());
+                // a print that fails must leave nothing of its own text behind (the statement did not complete)
+                if (reach == "print") && res.code.is_some() && res.code != Some(0) && res.out() != "start\nlinked\n" {
+                    ctx.violation("structure/failing-print-leaves-partial-output", "a print that fails on a cyclic value leaves part of its text on stdout",
+                        json!({"what": format!("{}-cycle via {}", k, link), "text": s, "stdout": res.out().chars().take(300).collect::<String>(), "expected_stdout": "start\nlinked\n", "exit": res.code, "cli": "fml run <file>"}));
+                }
                 // acyclic sharing must print successfully
                 if acyclic && res.code != Some(0) { judge_no_crash(ctx, &format!("{} acyclic nodes via {} -> {}", k, link, reach), &s, &res, "start\nlinked\n", Some("\u{0}")) }
                 else { judge_no_crash(ctx, &format!("{}-cycle via {} -> {}", k, link, reach), &s, &res, "start\nlinked\n", must_succeed.as_deref()) }
@@ -302,7 +308,8 @@ fn structures(ctx: &mut Ctx) {
         judge_no_crash(ctx, &format!("2-cycle printed after {} unrelated allocations", n), &s, &res, "start\nlinked\n", None);
     }
     ctx.stage("long acyclic chains reaching print and dispatch");
-    let lens: Vec<usize> = if ctx.quick() { vec![10, 1000] } else { vec![10, 100, 1000, 3000] };
+    // the property quantifies over acyclic chains of up to 10^3 links
+    let lens: Vec<usize> = if ctx.quick() { vec![10, 1000] } else { vec![10, 100, 500, 1000] };
     for len in lens {
         for kind in ["arrays", "fields", "parents"] {
             if ctx.take().is_none() { continue }
@@ -328,7 +335,8 @@ fn structures(ctx: &mut Ctx) {
         }
     }
     ctx.stage("FML call depth");
-    let depths: Vec<usize> = if ctx.quick() { vec![10, 1000, 100000] } else { vec![10, 1000, 10000, 100000, 300000] };
+    // ... FML call depth up to 10^5
+    let depths: Vec<usize> = if ctx.quick() { vec![10, 1000, 100000] } else { vec![10, 100, 1000, 10000, 50000, 100000] };
     for d in depths {
         if ctx.take().is_none() { continue }
         let s = format!("function down(n) -> if n == 0 then 0 else 1 + down(n - 1);\nprint(\"start\\n\");\nprint(\"~\\n\", down({}))", d);
@@ -341,7 +349,8 @@ fn structures(ctx: &mut Ctx) {
         judge_no_crash(ctx, &format!("method recursion depth {}", d), &s, &res, "start\n", Some(&format!("start\n{}\n", d)));
     }
     ctx.stage("source nesting depth");
-    let nest: Vec<usize> = if ctx.quick() { vec![50, 200] } else { vec![50, 100, 200, 400] };
+    // ... source nesting depth up to 200
+    let nest: Vec<usize> = if ctx.quick() { vec![50, 200] } else { vec![25, 50, 100, 150, 200] };
     for d in nest {
         let shapes: Vec<(&str, String, String, &str)> = vec![
             ("parentheses", "(".repeat(d), ")".repeat(d), "1"),
